@@ -140,6 +140,9 @@ const maxArrayFlatten = 64
 
 var leafCache = map[string][]Leaf{}
 
+// siteKind remembers, for every heap site, the kind and Go type of the leaf stored there (for typing axioms).
+var siteKind = map[string]Leaf{}
+
 // leavesOf flattens type t located in memory under the given site hint.
 // hint is "elem" or "field:<Struct>.<idx>:<name>".
 func leavesOf(t types.Type, hint string) []Leaf {
@@ -150,6 +153,11 @@ func leavesOf(t types.Type, hint string) []Leaf {
 	var out []Leaf
 	flatten(t, 0, hint, &out)
 	leafCache[key] = out
+	for _, l := range out {
+		if _, ok := siteKind[l.Site]; !ok {
+			siteKind[l.Site] = l
+		}
+	}
 	return out
 }
 
